@@ -1556,6 +1556,9 @@ class Parameter(_ParameterBase):
         if obj is not None and self.allow_refs and obj._param__private.initialized:
             syncing = name in obj._param__private.syncing
             ref, deps, val, is_async = obj.param._resolve_ref(self, val)
+            if not (is_async or val is Undefined):
+                # A value that is rejected must leave the links as they are
+                self._validate(val)
             refs = obj._param__private.refs
             if ref is not None:
                 self.owner.param._update_ref(name, ref)
